@@ -50,6 +50,13 @@ Definition p_push_line (p : parser) : parser :=
 Definition p_set_meta (p : parser) (m : pmeta) : parser :=
   mkP (p_toks p) (p_nt p) (p_eof p) (p_line p) (p_codeline p) (p_err p) (p_cur p) m (p_end p) (p_lines p) (p_syms p) (p_refs p).
 
+(* a comment met between a label and its instruction: an ;assert among them is kept as a comment line of its own, so
+   that the compiler evaluates it (other comments only feed the metadata, as before) *)
+Definition p_label_comment (p : parser) (c : text) : parser :=
+  mkP (p_toks p) (p_nt p) (p_eof p) (p_line p) (p_codeline p) (p_err p) (p_cur p) (read_metadata (p_meta p) c) (p_end p)
+      (if has_prefix (s2t ";assert") c then p_lines p ++ [mkSL (p_line p) 0 lineComment [] [] [] [] [] [] c 0] else p_lines p)
+      (p_syms p) (p_refs p).
+
 (* next(): the previous nextToken is returned by Go; callers here only need the new state *)
 Definition pnext (p : parser) : parser :=
   if p_eof p then p
@@ -129,7 +136,7 @@ Definition parse_step (st : pstate) (p : parser) : parser * option pstate :=
   | PLabels =>
     match t_typ nt with
     | tokNewline => (pnext p, Some PLabels)
-    | tokComment => (pnext (p_set_meta p (read_metadata (p_meta p) (t_val nt))), Some PLabels)
+    | tokComment => (pnext (p_label_comment p (t_val nt)), Some PLabels)
     | _ =>
       if tok_is_op nt then (p, Some (if tok_is_pseudo nt then PPseudoOp else POp))
       else match t_typ nt with
@@ -158,7 +165,7 @@ Definition parse_step (st : pstate) (p : parser) : parser * option pstate :=
     let nt1 := p_nt p1 in
     match t_typ nt1 with
     | tokNewline => (pnext p1, Some PColon)
-    | tokComment => (pnext (p_set_meta p1 (read_metadata (p_meta p1) (t_val nt1))), Some PColon)
+    | tokComment => (pnext (p_label_comment p1 (t_val nt1)), Some PColon)
     | _ =>
       if tok_is_op nt1 then (p1, Some (if tok_is_pseudo nt1 then PPseudoOp else POp))
       else match t_typ nt1 with
